@@ -1,5 +1,6 @@
 use crate::engine::Property;
 
+pub mod c03;
 pub mod c05;
 pub mod c06;
 pub mod c07;
@@ -7,6 +8,7 @@ pub mod c19;
 
 pub fn lookup(id: &str) -> Option<Property> {
     Some(match id {
+        "C03" => c03::property(),
         "C05" => c05::property(),
         "C06" => c06::property(),
         "C07" => c07::property(),
